@@ -292,6 +292,12 @@ func c10Specs(thorough bool) []*gen.ProgSpec {
 			for _, durs := range durTuples(n) {
 				for _, media := range []string{"audio", "video"} {
 					specs = append(specs, &gen.ProgSpec{Tracks: []gen.ProgTrack{mkTrack(media, 1000, n, ch, durs, len(ch)%4, 0, false)}})
+					// the same with the uniform form of stsz (one sample_size for all samples, no per-sample table)
+					{
+						tr := mkTrack(media, 1000, n, ch, durs, len(ch)%4, 0, false)
+						tr.T.StszSizes, tr.T.StszUniform = nil, uint32(2+n%2)
+						specs = append(specs, &gen.ProgSpec{Tracks: []gen.ProgTrack{tr}})
+					}
 					// the same with a track header that understates the duration (half, zero)
 					for short := 1; short <= 2; short++ {
 						tr := mkTrack(media, 1000, n, ch, durs, len(ch)%4, 0, false)
@@ -524,7 +530,7 @@ func runC10(c *vf.Ctx) {
 	} else {
 		c.SetBudget(4 * 60 * 1e9)
 	}
-	c.Rule = "generated progressive files: single video track with stss (all chunkings x every sync subset containing sample 1 x duration tuples over {1,2,3} x ctts/sdtp/co64/edts/mdat-first/64-bit-mdat-header variants), single audio / video track without stss (also with a track header duration of half the media duration and of zero), video+audio (all chunkings of both x every merge order of the chunks in mdat x sync subsets; audio timescale 1000 and 600) ; audio (timescale 600 / 441) before the video track, and three tracks (video, audio in another timescale, a third track in the reference timescale), two video tracks with different sync samples in either order, two audio tracks without video; single video tracks with empty samples (every size tuple over {0,1,2} with a zero, three chunkings); single video (with stss) / audio tracks of 3-4 samples with durations over {2^31, 2^32-1, 1} ticks at timescales 1000 / 90000 / 10^7 (decode times beyond 2^32 ticks inside one stts run); each file is cropped in-process by the tool's own cropMP4 (overlay-injected driver) at EVERY millisecond 1..total+2 (files longer than 5 s: at the boundary set of milliseconds around every sample start of every track, and 1, total+1, total+2). A case = (file, ms). Only successful crops are judged; tool errors/panics are tallied."
+	c.Rule = "generated progressive files: single video track with stss (all chunkings x every sync subset containing sample 1 x duration tuples over {1,2,3} x ctts/sdtp/co64/edts/mdat-first/64-bit-mdat-header variants), single audio / video track without stss (also with the uniform form of stsz, and with a track header duration of half the media duration and of zero), video+audio (all chunkings of both x every merge order of the chunks in mdat x sync subsets; audio timescale 1000 and 600) ; audio (timescale 600 / 441) before the video track, and three tracks (video, audio in another timescale, a third track in the reference timescale), two video tracks with different sync samples in either order, two audio tracks without video; single video tracks with empty samples (every size tuple over {0,1,2} with a zero, three chunkings); single video (with stss) / audio tracks of 3-4 samples with durations over {2^31, 2^32-1, 1} ticks at timescales 1000 / 90000 / 10^7 (decode times beyond 2^32 ticks inside one stts run); each file is cropped in-process by the tool's own cropMP4 (overlay-injected driver) at EVERY millisecond 1..total+2 (files longer than 5 s: at the boundary set of milliseconds around every sample start of every track, and 1, total+1, total+2). A case = (file, ms). Only successful crops are judged; tool errors/panics are tallied."
 	c.Bound = "single track N <= 5 (quick) / 7 (thorough) samples; video+audio N <= 3 / 4 each, audio timescale 1000 and 600 (reference track always 1000)"
 	specs := c10Specs(thorough)
 	c.Set("files", len(specs))
